@@ -1,5 +1,7 @@
 import IceProofs.TcpMuxCauseStep
+import IceProofs.TcpMuxSimEnd
 import IceSpec.C15
+import IceSpec.C15View
 /-!
 # C15 — TCP mux routes connections by ufrag and cleans up after itself
 
@@ -565,5 +567,216 @@ theorem C15_reply_to_source (cfg : Config) (ops : List Op) (h : Nat) (hd : Handl
   obtain ⟨t', ht', _, hsrc⟩ := ((reachable_inv2 cfg ops).pc _ pc hp).src pkt hmem
   rw [ht] at ht'; cases ht'
   exact (C15_reply_path cfg ops h hd pkt.src pid len hh hopen).1 pkt.conn t ht hph hsrc.symm
+
+/-! ## … and, as an iff, which first frames get the connection closed -/
+
+/-- **First frame, closed iff.** For a connection still waiting for its first frame (client neither
+closed nor stopped mid-frame): the complete frame `f` gets it CLOSED if and only if `f` is larger than
+512 bytes, or is not a STUN Binding with USERNAME, or the packet connection it routes to — the open one
+under (ufrag before `:`, family of the peer, local IP) — already has a connection from the same remote
+address. (In every other case it is attached, `C15_first_frame_iff`; an unknown ufrag is not a reason to
+close: a provisional packet connection is created.) -/
+theorem C15_first_frame_closed_iff (cfg : Config) (ops : List Op) (k : Nat) (t : Tcp) (d : Nat) (f : Frame) :
+    let s := run (init cfg) ops
+    s.tcps[k]? = some t → t.phase = .pending d → t.cEnd = false → t.stuck = false →
+    ((∃ t', (step s (.frame k f)).1.tcps[k]? = some t' ∧ t'.phase = .closed) ↔
+      (512 < f.len ∨ (∀ u, f.kind ≠ .user u) ∨
+        ∃ u p pc, f.kind = .user u ∧ findPc s.pcs ⟨u, t.peer.v6, t.lip⟩ = some p ∧ s.pcs[p]? = some pc ∧
+          (lookupConn pc.conns t.peer).isSome = true)) := by
+  intro s ht hph hce hst
+  have hiff := C15_first_frame_iff cfg ops k t d f ht hph hce hst
+  obtain ⟨_, hrej, hacc⟩ := C15_first_frame cfg ops k t d f ht hph hce hst
+  -- after the first frame the connection is attached or closed, never both
+  have hex : ∃ t', (step s (.frame k f)).1.tcps[k]? = some t' ∧ (t'.phase = .closed ∨ ∃ p, t'.phase = .attached p) := by
+    have rej : ∀ s', s' = rejected s k f → ∃ t', s'.tcps[k]? = some t' ∧ (t'.phase = .closed ∨ ∃ p, t'.phase = .attached p) := by
+      intro s' e
+      refine ⟨{ closeTcp t with sent := t.sent ++ [f] }, ?_, Or.inl rfl⟩
+      rw [e]; simp only [rejected, setTcp]; rw [getElem?_modify_eq, ht]; rfl
+    cases hc : classify f with
+    | none => exact rej _ (hrej hc)
+    | some u =>
+      have := hacc u hc
+      cases hfind : findPc s.pcs ⟨u, t.peer.v6, t.lip⟩ with
+      | some p =>
+        rw [hfind] at this
+        simp only at this
+        obtain ⟨pc, hp, _, _, hdup, hatt⟩ := this
+        cases hl : lookupConn pc.conns t.peer with
+        | some j => exact rej _ (hdup (by rw [hl]; rfl))
+        | none =>
+          obtain ⟨⟨t', pc', a1, _, a3, _⟩, _, _⟩ := hatt hl
+          exact ⟨t', a1, Or.inr ⟨p, a3⟩⟩
+      | none =>
+        rw [hfind] at this
+        simp only at this
+        obtain ⟨_, ⟨t', pc', a1, _, a3, _⟩, _, _⟩ := this
+        exact ⟨t', a1, Or.inr ⟨_, a3⟩⟩
+  obtain ⟨t', ht', hcases⟩ := hex
+  have hcl_iff : (∃ t'', (step s (.frame k f)).1.tcps[k]? = some t'' ∧ t''.phase = .closed) ↔
+      ¬ ∃ t'' p, (step s (.frame k f)).1.tcps[k]? = some t'' ∧ t''.phase = .attached p := by
+    constructor
+    · rintro ⟨t1, h1, c1⟩ ⟨t2, p, h2, c2⟩
+      rw [h1] at h2; cases h2; rw [c1] at c2; cases c2
+    · intro hn
+      rcases hcases with hc | ⟨p, hp⟩
+      · exact ⟨t', ht', hc⟩
+      · exact absurd ⟨t', p, ht', hp⟩ hn
+  rw [hcl_iff, hiff]
+  constructor
+  · intro hn
+    by_cases hl : f.len ≤ 512
+    · by_cases hk : ∃ u, f.kind = .user u
+      · obtain ⟨u, hu⟩ := hk
+        right; right
+        apply Classical.byContradiction
+        intro hno
+        apply hn
+        refine ⟨u, hl, hu, ?_⟩
+        intro p pc hf hp
+        cases hlk : lookupConn pc.conns t.peer with
+        | none => rfl
+        | some j => exact absurd ⟨u, p, pc, hu, hf, hp, by rw [hlk]; rfl⟩ hno
+      · right; left
+        intro u hu; exact hk ⟨u, hu⟩
+    · left; omega
+  · rintro (hbig | hnu | ⟨u, p, pc, hu, hf, hp, hdup⟩) ⟨u', hl, hu', hnd⟩
+    · omega
+    · exact hnu u' hu'
+    · rw [hu] at hu'; cases hu'
+      rw [hnd p pc hf hp] at hdup; cases hdup
+
+-- non-vacuity: each of the three reasons closes the connection; a valid first frame for an unknown ufrag does not
+example : ((run (init exCfg) (exOps1 ++ [.frame 0 (exUser 1 "a" 513)])).tcps[0]?).map (·.phase) = some .closed := by decide
+example : ((run (init exCfg) (exOps1 ++ [.frame 0 ⟨1, .otherMethod, 20⟩])).tcps[0]?).map (·.phase) = some .closed := by decide
+example : ((run (init exCfg) (exOps1 ++ [.frame 0 (exUser 1 "a"), .accept ⟨0, 1000⟩ 0, .frame 1 (exUser 2 "a")])).tcps[1]?).map (·.phase)
+    = some .closed := by decide
+example : ((run (init exCfg) (exOps1 ++ [.frame 0 (exUser 1 "zz")])).tcps[0]?).map (·.phase) = some (.attached 1) := by decide
+
+/-! ## Close closes every TCP connection — for every history -/
+
+/-- **Close closes every TCP connection.** For every history (whatever the clients, `GetConnByUfrag`,
+`RemoveConnByUfrag`, reads and writes did before and do after the call):
+* right after `Close` is called, no TCP connection is attached any more — each one is closed, or is still
+  waiting for its first frame (its handler ends at the first-bind deadline or with that frame);
+* once first-bind timeout + alive duration have elapsed since the call, EVERY TCP connection ever accepted
+  is closed, the listener is closed, and no goroutine of the mux is left. -/
+theorem C15_close_closes_all (cfg : Config) (ops : List Op) :
+    let s := run (init cfg) ops
+    (∀ (k : Nat) (t : Tcp), (step s .closeMux).1.tcps[k]? = some t → s.muxClosed = false →
+      t.phase = .closed ∨ ∃ d, t.phase = .pending d) ∧
+    (s.muxClosed = true → s.closedAt + effTimeout cfg.t1 + effTimeout cfg.t2 ≤ s.now →
+      s.listenerOpen = false ∧ (∀ (k : Nat) (t : Tcp), s.tcps[k]? = some t → t.phase = .closed) ∧
+      ledger s = ⟨0, 0, 0, 0, 0⟩) := by
+  intro s
+  constructor
+  · intro k t ht hm
+    have hi' : Inv (step s .closeMux).1 := step_inv s .closeMux (reachable_inv cfg ops)
+    cases hph : t.phase with
+    | closed => exact Or.inl rfl
+    | pending d => exact Or.inr ⟨d, rfl⟩
+    | attached p =>
+      exfalso
+      have := hi'.phase k t ht
+      simp only [PhaseOk, hph] at this
+      obtain ⟨_, pc, hp, hopen, _⟩ := this
+      have hp2 : (closePcsWhere (fun _ => true) s).pcs[p]? = some pc := by
+        simp only [step, hm, Bool.false_eq_true, if_false] at hp
+        exact hp
+      rcases (closePcsWhere_spec (fun _ => true) s).2 p pc hp2 with h | h
+      · rw [h] at hopen; cases hopen
+      · cases h
+  · intro hm hlate
+    exact C15_close_total cfg ops (C15_close_returns cfg ops hm hlate)
+
+-- non-vacuity: an attached, a silent and a provisional-to-be client when Close is called at time 0
+example : let s := run (init exCfg) (exOps1 ++ [.frame 0 (exUser 1 "a"), .accept ⟨1, 1001⟩ 0, .closeMux])
+    (s.tcps.map (·.phase)) = [.closed, .pending 30] := by decide
+example : let s := run (init exCfg) (exOps1 ++ [.frame 0 (exUser 1 "a"), .accept ⟨1, 1001⟩ 0, .closeMux,
+      .advance 29, .frame 1 (exUser 2 "q"), .advance 51])
+    s.muxClosed = true ∧ s.closedAt + effTimeout exCfg.t1 + effTimeout exCfg.t2 ≤ s.now ∧
+    (s.tcps.map (·.phase)) = [.closed, .closed] := by decide
+
+/-! ## The model is accepted by the spec monitor -/
+
+open IceSpec.C15 IceSpec.C15.View in
+/-- **Every run of the model passes the spec monitor of C15.** For every configuration and every
+sequence of operations from the initial state — any length, any interleaving of client events with
+`GetConnByUfrag` / `RemoveConnByUfrag` / `Close` / reads / writes, any timer values — the observable
+trace of the model (`traceOf`: the `new` line, one typed output line per operation, and optionally the
+`end` line of the harness's teardown) raises NO clause of the monitor `IceSpec.C15.observeT`: first
+frame, late, order and source, reply path, provisional expires, delivery, close.
+
+The proof is a simulation: `IceProofs.TcpMux.Sim` relates the model state to the monitor state
+(`C15_monitor_tracks_model`), every operation re-establishes it (`step_sim`).  The monitor that judges the
+implementation is `observe = observeT ∘ (parseToks, parseLine)`; the printing of the model's typed line
+and its re-reading by these parsers is checked by the driver on every generated line (`VIEW-DISAGREES`). -/
+theorem C15_model_passes_monitor (cfg : Config) (ops : List Op) (withEnd : Bool) :
+    firstViolation (traceOf cfg ops withEnd) = none := by
+  unfold firstViolation
+  rw [List.findSome?_eq_none_iff]
+  intro v hv
+  exact IceProofs.TcpMux.trace_ok cfg ops withEnd v hv
+
+open IceSpec.C15 IceSpec.C15.View in
+/-- the same, line by line -/
+theorem C15_model_passes_monitor_lines (cfg : Config) (ops : List Op) (withEnd : Bool) :
+    ∀ v, v ∈ verdicts {} (traceOf cfg ops withEnd) → v = none :=
+  IceProofs.TcpMux.trace_ok cfg ops withEnd
+
+/-- a session with a known and an unknown ufrag, a later frame, reads, a reply, a slow-loris client and an expiry -/
+def exSession : List Op :=
+  [.getConn exKeyA, .accept ⟨0, 1000⟩ 0, .frame 0 (exUser 1 "a"), .frame 0 ⟨2, .notStun, 10⟩, .read 0, .write 0 ⟨0, 1000⟩ 7 5,
+   .accept ⟨2, 1001⟩ 1, .frame 1 (exUser 3 "b"), .accept ⟨1, 1002⟩ 0, .partialFrame 2, .advance 30, .read 0, .read 0, .advance 50]
+
+/-- two connections from one address, one after the other, sending the SAME payload (frame id 1): the
+second frame read belongs to the first connection -/
+def exSamePayload : List Op :=
+  [.getConn exKeyA, .accept ⟨0, 1000⟩ 0, .frame 0 (exUser 1 "a"), .frame 0 ⟨2, .notStun, 10⟩, .clientClose 0 false,
+   .accept ⟨0, 1000⟩ 0, .frame 1 (exUser 1 "a"), .read 0, .read 0, .read 0, .read 0]
+
+open IceSpec.C15 IceSpec.C15.View in
+-- non-vacuity: the traces are not empty, the monitor really runs over them (one verdict per line) …
+example : (verdicts {} (traceOf exCfg exSession true)).length = 16 := by decide
+open IceSpec.C15 IceSpec.C15.View in
+example : firstViolation (traceOf exCfg exSession true) = none := by decide
+open IceSpec.C15 IceSpec.C15.View in
+example : firstViolation (traceOf exCfg exSamePayload true) = none := by decide
+
+open IceSpec.C15 IceSpec.C15.View in
+/-- the lines of `exSamePayload` with the first two reads swapped -/
+def exSwapped : List (MOp × Line) :=
+  let tr := traceOf exCfg exSamePayload false
+  tr.take 8 ++ (tr.drop 9).take 1 ++ (tr.drop 8).take 1 ++ tr.drop 10
+
+open IceSpec.C15 IceSpec.C15.View in
+-- … and the monitor is able to say no: the same lines with two reads swapped violate "order and source",
+example : (firstViolation exSwapped).isSome = true := by decide
+
+open IceSpec.C15 IceSpec.C15.View in
+/-- an oversized first frame after which the connection is reported open -/
+def exKeptOpen : List (MOp × Line) :=
+  [(.start 30 50, .obs ⟨.ok, [], [], [1, 0, 0, 0, 0, 0], false, false⟩),
+   (.accept 0 1000 0, .obs ⟨.ok, [], [], [1, 1, 0, 0, 0, 0], false, false⟩),
+   (.frame 0 1 (some "a") 516, .obs ⟨.other, [], [], [1, 1, 0, 0, 0, 0], false, false⟩)]
+
+open IceSpec.C15 IceSpec.C15.View in
+-- an oversized first frame that leaves the connection open violates "first frame"
+example : (firstViolation exKeptOpen).isSome = true := by decide
+
+open IceSpec.C15 IceSpec.C15.View in
+/-- **The monitor tracks the model.** After every session the state of the monitor is the abstraction of
+the state of the model (`IceProofs.TcpMux.Sim`): its packet-connection records and handles are the model's
+(keys, alive deadlines, reference counts, open/closed), and per TCP connection its record has the model's
+address, routing target, frames sent, number of frames read and "closed" flag. -/
+theorem C15_monitor_tracks_model (cfg : Config) (ops : List Op) :
+    IceProofs.TcpMux.Sim (run (init cfg) ops)
+      (IceProofs.TcpMux.monAfter {} ((.start cfg.t1 cfg.t2, .obs (obsOf [] (init cfg) .ok)) :: linesFrom (init cfg) ops)) :=
+  IceProofs.TcpMux.trace_sim cfg ops
+
+open IceSpec.C15 IceSpec.C15.View in
+-- non-vacuity: in `exSession` the monitor has counted the two frames of client 0 as read and knows client 2 is closed
+example : let m := IceProofs.TcpMux.monAfter {} (traceOf exCfg exSession false)
+    (m.clients.map (fun c => (c.target, c.nread, c.closed))) = [(some 0, 2, false), (some 1, 0, true), (none, 0, true)] ∧
+    (m.pcs.map (·.isOpen)) = [true, false] := by decide
 
 end IceProps.C15
